@@ -355,3 +355,15 @@ _SINGLE_DEFAULT = ['single-default']
 def mutdef1(a=_SINGLE_DEFAULT, c=(1, 2), other=None):
   """One mutable default, not shared with any other parameter."""
   return record('mutdef1', {'a': a, 'c': c, 'other': other})
+
+
+class Statics:
+  """Static / class method factories (auto_config targets and callees)."""
+
+  @staticmethod
+  def smake(x=None, y='d_y'):
+    return record('Statics.smake', {'x': x, 'y': y})
+
+  @classmethod
+  def cmake(cls, x=None, y='d_y'):
+    return record('Statics.cmake', {'x': x, 'y': y})
